@@ -1634,6 +1634,14 @@ def _opaque_reduction(tag, a: SymArr):
         app = z3.Const(name, rng)
     fz = a.frozen()
     _RED_APPS[app.sexpr()] = (tag, fz, a.shape, a.kind)
+    if core.active() and tag in ("ANY", "ALL"):
+        c = ctx()
+        ws = [z3.Int(f"w_{name}_{j}") for j in range(a.ndim)]
+        inr = [w >= 0 for w in ws] + [w < s for w, s in zip(ws, shape)]
+        if tag == "ANY":
+            c.assume(z3.Implies(app, z3.And(*(inr + [fz(tuple(ws))]))))
+        else:
+            c.assume(z3.Implies(z3.Not(app), z3.And(*(inr + [z3.Not(fz(tuple(ws)))]))))
     if core.active() and tag in ("MAX", "MIN"):
         # definition of max/min over a non-empty index range: the value is attained at some index
         c = ctx()
@@ -1969,9 +1977,11 @@ def sh_max(*args, **kw):
         seq = list(args)
     if not _has_sym(seq):
         return builtins.max(*args, **kw)
-    if kw:
-        raise Unsupported("max with key/default on symbolic values")
+    if set(kw) - {"default"}:
+        raise Unsupported("max with key on symbolic values")
     if not seq:
+        if "default" in kw:
+            return kw["default"]
         raise ValueError("max() iterable argument is empty")
     r = seq[0]
     for x in seq[1:]:
